@@ -42,6 +42,12 @@ PAIRS_QUICK = [
     ("(measured.si.Meter / measured.si.Second)", "(measured.us.Mile / measured.si.Hour)"),
     ("measured.us.Acre", "(measured.us.Foot ** 2)"),
 ]
+# offset scales: physical value through the affine definitions (oracle of C10)
+TEMPERATURE_PAIRS = [
+    ("measured.si.Kelvin", "measured.si.Celsius"), ("measured.si.Celsius", "measured.us.Fahrenheit"),
+    ("(measured.si.Milli * measured.si.Celsius)", "measured.si.Kelvin"),
+    ("measured.us.Rankine", "measured.us.Fahrenheit"), ("measured.us.Fahrenheit", "measured.si.Kelvin"),
+]
 PAIRS_THOROUGH = PAIRS_QUICK + [
     ("measured.us.Inch", "(measured.si.Centi * measured.si.Meter)"),
     ("measured.si.Kilogram", "measured.avoirdupois.Pound"),
@@ -84,10 +90,26 @@ def quantity_task(acc: work.Acc, uc: str, vc: str, kinds: Dict[str, str]) -> Non
     n = ns()
     U, V = eval(uc, n), eval(vc, n)
     orc = families.orc()
-    rs = orc.ratios(U, V)
-    if not rs:
-        raise symnum.HarnessError(f"oracle cannot relate {uc} and {vc}")
-    rho = rs[0][0]
+    affine = None
+    if any(f in orc.offset_units for f in list(U.factors) + list(V.factors)) or \
+            U in orc.offset_units or V in orc.offset_units:
+        from props import c10
+
+        maps = c10.to_kelvin_maps(orc)
+
+        def kmap(unit: Any) -> Tuple[Fraction, Fraction]:
+            base = next(iter(unit.factors))
+            a, b = maps[base.name]
+            pv = Fraction(unit.prefix.base) ** unit.prefix.exponent if unit.prefix.base else Fraction(1)
+            return a * pv, b
+
+        affine = (kmap(U), kmap(V))
+        rho = Fraction(1)
+    else:
+        rs = orc.ratios(U, V)
+        if not rs:
+            raise symnum.HarnessError(f"oracle cannot relate {uc} and {vc}")
+        rho = rs[0][0]
     exact_same = U is V
 
     def build(v: Dict[str, Any]) -> Dict[str, Any]:
@@ -103,8 +125,11 @@ def quantity_task(acc: work.Acc, uc: str, vc: str, kinds: Dict[str, str]) -> Non
     acc.explored(ex)
     x, y = real(case.vars["x"]), real(case.vars["y"])
     X, Y = x * symnum.q(rho), y
+    if affine is not None:
+        (a1, b1), (a2, b2) = affine
+        X, Y = symnum.q(a1) * x + symnum.q(b1), symnum.q(a2) * y + symnum.q(b2)
     absz = lambda e: z3.If(e >= 0, e, -e)
-    margin = 0 if exact_same else symnum.q(TOL) * (absz(X) + absz(Y))
+    margin = 0 if exact_same else symnum.q(TOL) * (absz(X) + absz(Y) + (1 if affine is not None else 0))
     cfg = f"quantity/{uc}/{vc}/{','.join(kinds.values())}"
 
     def replay(goalname: str):
@@ -113,13 +138,16 @@ def quantity_task(acc: work.Acc, uc: str, vc: str, kinds: Dict[str, str]) -> Non
 U, V = {uc}, {vc}
 x, y = {lit(kinds['x'], m['x'])}, {lit(kinds['y'], m['y'])}
 rho = {float(rho)!r}   # size(U)/size(V) from the declarations, independent of the planner
+AFF = {[[float(v) for v in ab] for ab in affine] if affine is not None else None!r}   # kelvin = a*m + b per side (offset scales)
 a, b = x * U, y * V
 X, Y = float(x) * rho, float(y)
+if AFF:
+    X, Y = AFF[0][0] * float(x) + AFF[0][1], AFF[1][0] * float(y) + AFF[1][1]
 obs = dict(eq_aa=(a == a), eq_ab=(a == b), eq_ba=(b == a), ne_ab=(a != b), lt_ab=(a < b),
            le_ab=(a <= b), gt_ab=(a > b), ge_ab=(a >= b), lt_ba=(b < a), le_ba=(b <= a),
            gt_ba=(b > a), ge_ba=(b >= a))
 print(a, b, obs)
-tie = abs(X - Y) <= 1e-7 * (abs(X) + abs(Y))
+tie = abs(X - Y) <= 1e-7 * (abs(X) + abs(Y) + (1 if AFF else 0))
 if tie and not (X == Y and U is V):
     print('tie zone: nothing required'); sys.exit(0)
 lt, eq, gt = X < Y, X == Y, X > Y
@@ -180,6 +208,11 @@ if a == b and hash(a) != hash(b):
 sys.exit(0)
 """
         sig = "C12:hash:same-unit" if exact_same else "C12:hash:equal-quantities-in-different-units"
+        if affine is not None:
+            # offset scales: an exactly equal pair in reals (x*a1+b1 == y*a2+b2) is in general not
+            # equal in doubles, so a hash witness cannot be replayed; the different-units hash
+            # finding is established on the ratio pairs
+            continue
         if exact_same:
             # same unit: a == b forces x == y, and Python hashes equal numbers equally
             acc.prove(case, p, z3.Implies(o["eq_ab"], x == y), f"{cfg}#p{i}:hash", key, sig,
@@ -374,8 +407,10 @@ def tasks_for(tier: str) -> List[Tuple]:
     if tier == "thorough":
         kq += [("int", "int"), ("float", "int"), ("dec", "int")]
     tasks: List[Tuple] = []
-    for u, v in pairs:
+    for u, v in pairs + TEMPERATURE_PAIRS:
         for kx, ky in kq:
+            if (u, v) in TEMPERATURE_PAIRS and kx == "int":
+                continue
             tasks.append(("quantity", u, v, {"x": kx, "y": ky}))
     mpairs = pairs[:4] if tier == "quick" else pairs[:10]
     for u, v in mpairs:
